@@ -82,7 +82,12 @@ func scanRefsToChan(scanner *GitScanner, pointerCb GitScannerFoundPointer, inclu
 		lockableCb = noopFoundLockable
 	}
 
+	// The callbacks made from this goroutine decide, for a push, whether
+	// a file locked by somebody else is being modified; wait for it before
+	// returning so that none of them is lost.
+	lockablesDone := make(chan struct{})
 	go func(cb GitScannerFoundLockable, ch chan string) {
+		defer close(lockablesDone)
 		for name := range ch {
 			cb(name)
 		}
@@ -112,6 +117,8 @@ func scanRefsToChan(scanner *GitScanner, pointerCb GitScannerFoundPointer, inclu
 	if err := pointers.Wait(); err != nil {
 		pointerCb(nil, err)
 	}
+
+	<-lockablesDone
 
 	return nil
 }
